@@ -61,7 +61,7 @@ theorem loadSubs_written (f : Fld) (nx ny nz : Nat) (h : WF f nx ny nz) (hsub : 
       simp only [he', Bool.not_false, Bool.and_true, if_true]
       exact loadSubs_ok _ _
         (fun p hp => C14.subOkE_regionInv f.mesh h.mesh p.2 (hsub p hp))
-        (fun p hp => C14.subOk_of_fits _ (rebuiltMesh_inv f nx ny nz h) p.2
+        (fun p hp => C14.candOk_of_fits _ (rebuiltMesh_inv f nx ny nz h) p.2
           (fitsE_rebuilt f nx ny nz h p.2 (hsub p hp).2.2.2))
 
 /-- a held subregion that carries the mesh's names, units and tolerance is restored as it was
